@@ -27,8 +27,13 @@ def gen_prog(rng: Rng, spec: Spec, cfg: dict, max_batches: int):
     if k > 1 and rng.random() < 0.5:
         dead = rng.randrange(k)          # force an empty shard
         owners = [o if o != dead else (dead + 1) % k for o in owners]
+    tiny = rng.random() < 0.35
+    if tiny:
+        # boundary layout: every shard holds at most ONE update of the smallest batch size (single-sample shards
+        # beside empty ones) — where "nothing to contribute yet" shortcuts in merge_state would drop data
+        owners = [o for o in range(k) if rng.random() < 0.8][:max_batches]
     for o in owners:
-        p.u(o, spec.gen(rng, cfg, rng.choice(spec.sizes)))
+        p.u(o, spec.gen(rng, cfg, min(spec.sizes) if tiny else rng.choice(spec.sizes)))
     shape = rng.choice(SHAPES)
     ids = list(range(k))
     root = 0
